@@ -17,6 +17,7 @@ locs = {}
 cmps = {}
 kargs = {}
 argb = {}
+prof = {}
 for v in ('A', 'B', 'C', 'D'):
     prog = facts.load(None, v)
     for f in prog.funcs.values():
@@ -28,6 +29,11 @@ for v in ('A', 'B', 'C', 'D'):
             ka = generic.constant_args_profile(f)
             if ka:
                 kargs.setdefault(v, {}).setdefault(f.file, {})[f.name] = ka
+            pr = {'R': generic.stored_constants_profile(f), 'O': generic.offsets_profile(f)}
+            if any(b.get('case') for b in f.blocks.values()):
+                pr['F'] = generic.fallthrough_profile(f)
+            if pr['R'] or pr['O'] or 'F' in pr:
+                prof.setdefault(v, {}).setdefault(f.file, {})[f.name] = pr
             ab = generic.argument_bindings(f, prog)
             if ab:
                 ab['#params'] = [p['name'] for p in f.params]
@@ -41,6 +47,7 @@ json.dump({k: {fn: sorted(ns) for fn, ns in sorted(v.items())} for k, v in sorte
           open(os.path.join(facts.VERIF, 'engine', 'baseline_locals.json'), 'w'), indent=0)
 json.dump(cmps, open(os.path.join(facts.VERIF, 'engine', 'baseline_comparisons.json'), 'w'), indent=0, sort_keys=True)
 json.dump(kargs, open(os.path.join(facts.VERIF, 'engine', 'baseline_constargs.json'), 'w'), indent=0, sort_keys=True)
+json.dump(prof, open(os.path.join(facts.VERIF, 'engine', 'baseline_profiles.json'), 'w'), indent=0, sort_keys=True)
 json.dump(argb, open(os.path.join(facts.VERIF, 'engine', 'baseline_argbind.json'), 'w'), indent=0, sort_keys=True)
 path = os.path.join(facts.VERIF, 'engine', 'baseline_functions.json')
 json.dump({k: sorted(v) for k, v in sorted(out.items())}, open(path, 'w'), indent=0)
